@@ -33,21 +33,20 @@ go test -vet=off -count=1 -run "^($TESTS)\$" $PKGS > /tmp/eval-$ID-with.log 2>&1
 for f in $DEMOFILES; do rm -f "$WT/$f"; done
 go build ./... > /tmp/eval-$ID-suite.log 2>&1 && go test -vet=off -count=1 ./... >> /tmp/eval-$ID-suite.log 2>&1; RC_SUITE=$?
 echo "demo without change rc=$RC_WITHOUT (want 0); with change rc=$RC_WITH (want !=0); suite with change rc=$RC_SUITE (want 0)"
-# run the checks against /repo with the patch
-cd /verif
-git -C /repo apply "$OUT/patch.diff" || { echo "cannot apply to /repo"; exit 3; }
+# run the checks against the patched scratch worktree, from a scratch copy of /verif (neither /repo
+# nor /verif/evidence is touched, so this can run next to anything else)
+EV=/tmp/evalv-$ID
+rm -rf "$EV"; mkdir -p "$EV"
+rsync -a --exclude .git --exclude .work --exclude seeded /verif/ "$EV"/
+cleanup() { git -C /repo worktree remove --force "$WT" >/dev/null 2>&1; rm -rf "$EV"; }
 RES=""
-mkdir -p /tmp/evsave-$ID && cp /verif/evidence/*.json /tmp/evsave-$ID/ 2>/dev/null
 for P in $PROP $EXTRA; do
-  timeout 1500 ./vrun $P $TIER > /tmp/eval-$ID-$P.log 2>&1; rc=$?
-  cp /verif/evidence/$P.json /tmp/eval-$ID-$P.evidence.json 2>/dev/null
+  VERIF_REPO="$WT" timeout 1500 "$EV"/vrun $P $TIER > /tmp/eval-$ID-$P.log 2>&1; rc=$?
+  cp "$EV"/evidence/$P.json /tmp/eval-$ID-$P.evidence.json 2>/dev/null
   sig=$(grep -m3 'signature:' /tmp/eval-$ID-$P.log | sed 's/^ *signature: //' | tr '\n' ';')
   echo "check $P $TIER exit=$rc  $sig"
   RES="$RES{\"check\":\"$P\",\"tier\":\"$TIER\",\"exit\":$rc,\"signatures\":\"$(echo $sig | sed 's/"/\\"/g')\"},"
 done
-git -C /repo checkout -- .
-cp /tmp/evsave-$ID/*.json /verif/evidence/ 2>/dev/null; rm -rf /tmp/evsave-$ID
-# restore evidence of the unchanged tree for the checks we ran
 mkdir -p /verif/seeded/$ID
 cp "$OUT/patch.diff" /verif/seeded/$ID/
 cp "$OUT"/*_test.go "$OUT"/demo_cmd.txt "$OUT"/notes.md /verif/seeded/$ID/ 2>/dev/null
@@ -57,7 +56,7 @@ import json,sys
 id,prop,rcw,rcc,rcs,res,demos=sys.argv[1:8]
 notes=open(f"/verif/seeded/{id}/notes.md").read() if True else ""
 meta={"id":id,"property":prop,"demo_files":demos.split(),"demo_passes_without_change":rcw=="0","demo_fails_with_change":rcc!="0","repo_test_suite_passes_with_change":rcs=="0","checks_run":json.loads(res),"detected":any(c["exit"]==1 for c in json.loads(res)),
- "what_it_needs":"see notes.md","ran":"tools/eval_seed.sh (scratch worktree for demo+suite; git -C /repo apply, ./vrun <prop> <tier>, git -C /repo checkout -- .)"}
+ "what_it_needs":"see notes.md","ran":"tools/eval_seed.sh (scratch worktree: demo + suite, then VERIF_REPO=<worktree> vrun <prop> <tier> from a scratch copy of /verif)"}
 json.dump(meta,open(f"/verif/seeded/{id}/meta.json","w"),indent=1)
 print(json.dumps(meta)[:600])
 PY
